@@ -54,7 +54,7 @@ CODE_NET = {'BTC': 'bitcoin', 'LTC': 'litecoin', 'DOGE': 'dogecoin', 'TST': 'bit
             'SBTC': 'signet', 'RBTC': 'regtest', 'XLT': 'litecoin_testnet', 'TDOGE': 'dogecoin_testnet'}
 # denominator symbols with a recorded finding (fixes/C17-known.json): the extra float multiplication by the
 # denominator loses a unit, the default number of decimals cannot represent a unit, or the symbol cannot be parsed
-CLASS_OF_SYM = {'msat': 'msat', 'n': 'n', 'fin': 'fin', 'µ': 'u', 'd': 'd', 'da': 'da', 'h': 'h', 'k': 'k',
+CLASS_OF_SYM = {'msat': 'msat', 'n': 'n', 'fin': 'fin', 'µ': 'u', 'm': 'm', 'd': 'd', 'da': 'da', 'h': 'h', 'k': 'k',
                 'M': 'M', 'G': 'G', 'T': 'T', 'P': 'P', 'E': 'E', 'Z': 'Z', 'Y': 'Y'}
 
 
